@@ -111,6 +111,12 @@ def make_source(spec):
     if k == "mask":
         g = np.random.default_rng(82_000 + spec["id"])
         return g.uniform(size=tuple(spec["shape"])) < 0.7
+    if k == "voxels":
+        return darsia.make_voxel(spec["vals"])
+    if k == "coords":
+        return darsia.make_coordinate(spec["vals"])
+    if k == "slices":
+        return tuple(slice(lo, hi) for lo, hi in spec["vals"])
     if k == "list":
         return list(spec["vals"])
     if k == "tuple":
@@ -146,7 +152,7 @@ def make_image(spec):
     tm = spec.get("time", "none")
     if T:
         if tm == "date":
-            kw["date"] = [DT0 + datetime.timedelta(seconds=60 * i) for i in range(T)]
+            kw["date"] = [DT0 + datetime.timedelta(seconds=60 * i) for i in range(T)]  # before the singles (>= 1000 s)
         else:
             kw["time"] = [float(10 * i) for i in range(T)]
     else:
@@ -198,6 +204,8 @@ NP_DT = {"float32": np.float32, "float64": np.float64, "uint8": np.uint8, "uint1
 
 def _subregion(pool, op):
     a = pool[op["a"]]
+    if op.get("roi_from"):
+        return a.subregion(pool[op["roi_from"]])  # caller-owned ROI container (slices / VoxelArray / CoordinateArray)
     roi = op["roi"]
     if op["form"] == "slices":
         return a.subregion(tuple(slice(lo, hi) for lo, hi in roi))
@@ -262,7 +270,39 @@ def _geometry(pool, op):
     return g.normalize(a, pool[op["ref"]])
 
 
+class _PyamgProxy:
+    """Replaces the name 'pyamg' inside darsia.measure.wasserstein: the n-th multigrid set-up completes (and has
+    drawn from numpy's global RNG) and then fails."""
+
+    def __init__(self, real, occurrence):
+        self._real, self._at, self._n, self.fired = real, occurrence, 0, False
+
+    def __getattr__(self, name):
+        return getattr(self._real, name)
+
+    def smoothed_aggregation_solver(self, *a, **k):
+        ml = self._real.smoothed_aggregation_solver(*a, **k)
+        i = self._n
+        self._n += 1
+        if i == self._at:
+            self.fired = True
+            raise RuntimeError("injected: multigrid set-up failed after drawing random vectors")
+        return ml
+
+
 def _w1(pool, op):
+    if op.get("fault"):
+        import darsia.measure.wasserstein as wm
+        if not hasattr(wm, "pyamg"):
+            raise HarnessError("seam missing: darsia.measure.wasserstein.pyamg")
+        real = wm.pyamg
+        proxy = _PyamgProxy(real, op["fault"]["occurrence"])
+        wm.pyamg = proxy
+        try:
+            return _w1({**pool}, {k: v for k, v in op.items() if k != "fault"})
+        finally:
+            wm.pyamg = real
+            FAULTS_FIRED.append(proxy.fired)
     a, b = pool[op["a"]], pool[op["b"]]
     with warnings.catch_warnings():
         warnings.simplefilter("ignore")
@@ -317,7 +357,7 @@ REGISTRY = {
     "to_trichromatic": (lambda p, o: p[o["a"]].to_trichromatic(o["cs"], return_image=True), ("a",)),
     "to_monochromatic": (lambda p, o: p[o["a"]].to_monochromatic(o["key"]), ("a",)),
     "add_grid": (lambda p, o: p[o["a"]].add_grid(dx=o["dx"], dy=o["dy"], thickness=1), ("a",)),
-    "subregion": (_subregion, ("a",)),
+    "subregion": (_subregion, ("a", "roi_from")),
     "time_slice": (lambda p, o: p[o["a"]].time_slice(o["i"]), ("a",)),
     "time_interval": (lambda p, o: p[o["a"]].time_interval(slice(o["lo"], o["hi"])), ("a",)),
     "slice": (lambda p, o: p[o["a"]].slice(o["cut"], o["axis"]), ("a",)),
@@ -342,6 +382,7 @@ REGISTRY = {
     "ctor": (_ctor, ("arr", "dims", "origin", "meta", "nv", "voxel_size")),
 }
 
+FAULTS_FIRED: list = []
 RETURNS_SELF_RESET = {"reset_origin"}  # documented to reset the receiver's own origin: only bystanders are watched
 
 
@@ -372,7 +413,7 @@ class C17Engine(Engine):
             "derived from another pool member; distinct = distinct (sequence of call forms, operand-sharing pattern).")
     components_real = ["darsia.Image / ScalarImage / OpticalImage and all registered call forms (see registry in engines/c17_no_mutation.py)",
                        "numpy, OpenCV, skimage, scipy, pyamg"]
-    components_stub = ["none (no fault or time seam: the property is an invariant over shared mutable state along a history of calls)"]
+    components_stub = ["name 'pyamg' inside darsia.measure.wasserstein -> proxy whose k-th multigrid set-up completes (drawing from numpy's RNG) and then raises (only in distance calls that carry a fault plan)"]
     assumptions = ["a call that raises is not a violation (the statement is about operations that return); whether a raising call left its arguments intact is counted as a probe only",
                    "reset_origin(return_image=True) is documented to reset the receiver's own origin: only bystanders are watched for it",
                    "C17.E covers scalar x image combinations for which numpy keeps the raw array's dtype (int and float scalars on float images, non-negative int scalars on unsigned images); float x integer-image and negative-int x unsigned-image change dtype in numpy itself and are outside"]
@@ -430,7 +471,7 @@ class C17Engine(Engine):
             sp["origin"] = None
             sp.pop("origin")
             sp["time"] = "date" if i == 0 else sp["time"]
-            sp["date_offset"] = 100 * i
+            sp["date_offset"] = 1000 + 100 * i
             sources[f"f{i}"] = sp
         # two equal-mass distributions on the family grid (distance computations need them)
         mid = r.randint(0, 9999)
@@ -450,6 +491,15 @@ class C17Engine(Engine):
         sources["dims3"] = {"kind": "list", "vals": [2.0, 3.0, 4.0]}
         sources["nv2"] = {"kind": "tuple", "vals": base_shape}
         sources["shape_t"] = {"kind": "tuple", "vals": [cfg.randint(2, 7), cfg.randint(2, 7)]}
+        sources["roi_s"] = {"kind": "slices", "vals": [[cfg.randint(0, 1), cfg.randint(2, 3)], [0, cfg.randint(2, 3)]]}
+        sources["roi_v"] = {"kind": "voxels", "vals": [[cfg.choice([-3, 0, 1]), cfg.choice([-1, 0, 1])],
+                                                       [cfg.choice([2, 3, 25]), cfg.choice([3, 30])]]}
+        sources["roi_c"] = {"kind": "coords", "vals": [[cfg.choice([-1.0, 0.5]), cfg.choice([0.5, 1.0])],
+                                                       [cfg.choice([1.5, 40.0]), cfg.choice([2.5, 30.0])]]}
+        # a series on the family grid whose dates precede those of the single family images (valid first element of a stack)
+        sources["fs"] = {"kind": "image", "cls": fam_cls, "shape": base_shape, "dtype": fam_dtype, "series": cfg.randint(1, 3),
+                         "time": cfg.choice(["date", "date", "time", "none"]), "id": r.randint(0, 9999),
+                         "dims": [float(base_shape[0]), 2.0 * base_shape[1]], "early": True}
         sources["pts"] = {"kind": "list", "vals": [[1, 2], [3, 1], [2, 4]]}
         sources["max_size"] = {"kind": "list", "vals": [6, 6]}
         sources["box"] = {"kind": "tuple", "vals": []}  # replaced at build time by a tuple of slices
@@ -545,6 +595,9 @@ class C17Engine(Engine):
             for s in desc[a]["shape"]:
                 lo = r.randint(0, s - 2)
                 roi.append([lo, r.randint(lo + 1, s)])
+            if desc[a]["dim"] == 2 and r.random() < 0.5:
+                desc[out] = {**desc[a], "shape": None, "fam": False}
+                return {"op": "subregion", "a": a, "roi_from": r.choice(["roi_s", "roi_v", "roi_v", "roi_c"]), "out": out}
             desc[out] = {**desc[a], "shape": [hi - lo for lo, hi in roi], "fam": False}
             return {"op": "subregion", "a": a, "roi": roi, "form": r.choice(["slices", "voxels", "coords"]), "out": out}
         if kind == "time":
@@ -590,10 +643,14 @@ class C17Engine(Engine):
             chosen = r.sample(members, k)
             if kind == "stack":
                 chosen.sort(key=lambda n: (desc[n].get("order", 0), n))
+                if r.random() < 0.4:
+                    # a series first (the family series, or the result of an earlier stack), singles after it
+                    firsts = ["fs"] + sorted(n for n, d in desc.items() if d.get("stacked"))
+                    chosen = [r.choice(firsts)] + chosen[: r.randint(1, 2)]
             lname = f"L{step}"
             lists[lname] = chosen
             desc[out] = {**desc[chosen[0]], "series": k if kind == "stack" else 0, "fam": False,
-                         "shape": desc[chosen[0]]["shape"] if kind == "stack" else None}
+                         "shape": desc[chosen[0]]["shape"] if kind == "stack" else None, "stacked": kind == "stack"}
             return {"op": kind, "lst": lname, "out": out}
         if kind == "resize":
             a = self._pick(r, desc, lambda d: d["dim"] == 2 and d["dtype"] in ("float32", "float64", "uint8"))
@@ -677,6 +734,10 @@ class C17Engine(Engine):
                 op["options"] = "w1opts"
                 if r.random() < 0.3:
                     op["weight"] = "wfam"
+                if sources["w1opts"]["vals"]["linear_solver"] in ("amg", "cg") and r.random() < 0.4:
+                    # fault: the k-th multigrid set-up fails after it has drawn random vectors (k >= 1: inside the
+                    # iteration, where the library handles the failure and still returns a result)
+                    op["fault"] = {"site": "amg-setup-post", "occurrence": r.randint(1, 2)}
             return op
         if kind == "box":
             if r.random() < 0.5:
@@ -757,6 +818,12 @@ class C17Engine(Engine):
                 after = {n: snap(o) for n, o in pool.items()}
                 rng_after = rng_token()
                 out.counters["op:" + form] += 1
+                if op.get("fault"):
+                    fired = bool(FAULTS_FIRED and FAULTS_FIRED[-1])
+                    del FAULTS_FIRED[:]
+                    out.counters["fault:amg-setup-post-" + ("fired" if fired else "not-reached")] += 1
+                    if fired and exc is None:
+                        out.counters["probe:faulted-call-returned-normally"] += 1
                 label = self._form_label(op)
                 forms_seq.append(label)
                 changed = []
